@@ -979,8 +979,8 @@ def _calls_to(tree, name: str, cls: str) -> int:
     for n in ast.walk(tree):
         if isinstance(n, ast.Attribute) and n.attr == name and cls:
             k += 1
-        elif isinstance(n, ast.Name) and n.id == name and not cls and isinstance(n.ctx, ast.Load):
-            k += 1
+        elif isinstance(n, ast.Name) and n.id == name and isinstance(n.ctx, ast.Load):
+            k += 1  # also a bare reference from the class body itself (a dispatch table built there)
     return k
 
 
